@@ -1,18 +1,24 @@
 """C04 - integer-typed storage never holds a value outside its declared range.
 
-Theorems: coq/C04/Properties_C04.v. Spec = the shared reference interpreter coq/Lang (every store
-goes through Lang.Sem.coerce, global initialisers included);
+Theorems: coq/C04/Properties_C04.v and coq/C04/Properties_C04_cxx.v. Spec = the shared reference interpreter coq/Lang (every
+store goes through Lang.Sem.coerce, global initialisers included);
 Mech = today's store paths of /repo (coq/C04/Model.v) over the min/max table, rejection test and
 unsigned clamp re-extracted from the C++ into coq/C04/Gen_RangeTable.v by translators/ranges.py on
 every run; the typed store entry point VariableManager::assign_variable is modelled with its type hint
 (mech_assign_variable: the range of the TARGET's type is checked whatever hint the caller passes).
+A second, independent reading of TypeManager::check_type_range: translators/cxx_pure.py translates clang's AST of the function
+into coq/C04/Gen_CheckTypeRange.v on every run; Properties_C04_cxx.v proves about that term that it accepts exactly the closed
+interval of Spec (check_type_range_is_spec - nothing of ranges.py is used) and that it agrees with the regex-extracted table
+(check_type_range_table).
 Tie: (1) the exhaustive matrix types x store paths x boundary values, one store per program: CbCore cells run on
 /repo's main, on the extracted Ref (bin/lang_model) and asked of the extracted Mech (bin/c04_model mech); the same
 cells again with the type written through a typedef alias; cells outside CbCore (multiple declarations, ++/-- as an
-expression, function-pointer calls, whole-array stores, struct members, pointers, references) with the Spec conversion
-as the expected transcript. On cells where Mech = Spec main must agree with Ref, on the other cells (the
+expression, function-pointer calls, whole-array stores, struct literals, nested / indirect members, pointers, references) with
+the Spec conversion as the expected transcript. On cells where Mech = Spec main must agree with Ref, on the other cells (the
 recorded defects) main must agree with Mech (KNOWN-FINDING) or with Ref (fixed); (2) random programs
-mixing the store paths; (3) hand-written replays of the findings.
+mixing the store paths (direct struct member stores included since fix a3f0b3d); (3) hand-written replays of the findings.
+A translator that gives up or a broken obligation is a VIOLATION; its failing input is the first matrix cell (type x boundary
+value, `T x = v;` first) on which main deviates - `no-failing-input-found` only when main deviates nowhere.
 """
 import collections
 import json
@@ -27,40 +33,54 @@ from common import rng_for
 
 sys.path.insert(0, os.path.join(common.VERIF, "translators"))
 import ranges as ranges_tr  # noqa: E402
+import cxx_pure  # noqa: E402
 
 PROP = "C04"
 LEVEL = "proof"
 META = {
     "category": "proof",
     "technique": "Coq invariant proof over the shared reference interpreter (generic state-relation induction) + refinement of a model of "
-                 "the C++ store paths over the range table re-extracted from the C++ on every run + extracted-model differential matrix against main",
+                 "the C++ store paths over the range table re-extracted from the C++ on every run + theorems about TypeManager::check_type_range "
+                 "itself, translated from clang's AST on every run + extracted-model differential matrix against main",
     "text": "Machine-checked for every program, fuel and reachable state of the reference semantics (coq/Lang): if every typed cell (globals, "
             "all scopes of all frames, statics) holds a value of its declared type, so does every cell after any expression or statement, "
             "whatever its outcome (store_inv_step); every run therefore starts and ends well-formed or is refused because of an "
             "out-of-range global initialiser (store_inv_run), every value read, returned or bound to a parameter is in range; an in-range store - both "
             "limits of every type included - reads back exactly and touches no other cell (store_exact, store_touches_only_target); a negative "
             "stored to an unsigned target becomes 0; any other out-of-range value is a range error on every store path and leaves the state "
-            "unchanged. The min/max table, the rejection test and the unsigned clamp are re-extracted from TypeManager::check_type_range / "
-            "clamp_unsigned_value on every run; range_table_is_documented and range_check_is_closed_interval are stated about the generated "
-            "definitions, so an edited bound or comparison breaks the obligation itself. A model of each C++ store path (Mech) is proved equal "
-            "to the demanded conversion on declaration (also from a call, a ?:, through a typedef alias, in a multiple declaration), assignment "
-            "(also from a call and from a ?: - assign_variable_checks_target_type: VariableManager::assign_variable checks the range of the "
-            "TARGET's type for every type hint its callers pass, except a bool hint), compound assignment, ++/--, argument passing, function "
-            "results, global scalars (const ones too), multi-dimensional stores, nested literals and signed 1-D elements, and proved NOT to be "
-            "on the other paths (_refuted theorems = recorded findings: bool-inferred ?: branch, typedef + ?:, statics after initialisation, "
-            "global arrays, whole-array stores, struct members, pointers, references). main, the extracted reference interpreter and the "
-            "extracted Mech are compared on every run on the exhaustive matrix 9 types x (81 CbCore store-path variants, each also through a "
-            "typedef alias for the 5 signed types, + 26 variants outside CbCore) x 13 boundary values (one store per program, about 15 600 "
-            "programs) and on random programs mixing the paths (assignments from ?: included; only a bool-inferred, not 0/1-valued branch is avoided).",
-    "note": "Trusted: Coq kernel, no axioms (all Print Assumptions closed); extraction (ExtrOcamlBasic, ExtrOcamlString) + OCaml driver "
-            "translators/ranges.py (regular expressions over two C++ functions; an "
-            "unrecognised shape is reported as `translator: stale` and the check falls back to the correspondence run); the Mech model is a "
-            "hand-written reading of the named call sites, tied to main by differential testing only. Cells outside CbCore (multiple "
-            "declarations, struct members, pointers, references, whole-array stores, function-pointer calls) have no Ref run: their expected "
-            "transcript is the Spec conversion (Lang.Sem.coerce) of the one store, printed by the harness. `unsigned char` is rejected by "
-            "the parser, so the matrix has 9 types; `typedef unsigned T` is rejected too (typedef variants: signed types only); values outside "
-            "int64 cannot be written in Cb. Assignment used as an expression crashes the interpreter (finding C04-assignment-expression-crash), "
-            "so the store path behind it is not exercised.",
+            "unchanged. GENERATED FROM THE C++ TEXT on every run, by two independent translators: (a) translators/cxx_pure.py turns clang's AST "
+            "(-ast-dump=json) of TypeManager::check_type_range - the closure it hands to evaluate_safe: switch over the type code, min / max "
+            "assignments, range test, throw - into a term of the C++17 integer fragment coq/Cxx/Cxx.v (coq/C04/Gen_CheckTypeRange.v); "
+            "check_type_range_is_spec proves, for all 10 (type, signedness) rows and every int64 value, that this term accepts exactly the closed "
+            "interval of the reference semantics and throws `Value out of range for type` otherwise, check_type_range_default / "
+            "type_codes_are_the_labels that every other type code is never rejected; (b) translators/ranges.py re-extracts the min/max table, "
+            "the rejection test and the unsigned clamp of clamp_unsigned_value with regular expressions (coq/C04/Gen_RangeTable.v); "
+            "range_table_is_documented and range_check_is_closed_interval are stated about these definitions and check_type_range_table proves "
+            "that the two readings agree - an edited bound or comparison breaks the obligations themselves. A model of each C++ store path (Mech, "
+            "hand-written over (b)) is proved equal to the demanded conversion on declaration (also from a call, a ?:, through a typedef alias, "
+            "in a multiple declaration), assignment (also from a call and from a ?: - assign_variable_checks_target_type: "
+            "VariableManager::assign_variable checks the range of the TARGET's type for every type hint its callers pass, except a bool hint), "
+            "compound assignment, ++/--, argument passing, function results, global scalars (const ones too), multi-dimensional stores, nested "
+            "literals, signed 1-D elements and - since fix a3f0b3d - direct stores into struct members (member_store_is_checked: s.m = e, "
+            "s.m op= e, s.m++, s.a[i] = e, members of generic structs), and proved NOT to be on the other paths (_refuted theorems = recorded "
+            "findings: bool-inferred ?: branch, typedef + ?:, statics after initialisation, global arrays, whole-array stores, struct LITERALS, "
+            "nested members and members reached through a pointer / reference / self / struct-array element, pointers, references). main, the "
+            "extracted reference interpreter and the extracted Mech are compared on every run on the exhaustive matrix 9 types x (92 CbCore "
+            "store-path variants, each also through a typedef alias for the 5 signed types, + 41 variants outside CbCore) x 13 boundary values "
+            "(one store per program, about 19 000 programs) and on random programs mixing the paths (assignments from ?: and stores into narrow "
+            "struct members included; only a bool-inferred, not 0/1-valued branch is avoided).",
+    "note": "Trusted: Coq kernel, no axioms (all Print Assumptions closed); extraction (ExtrOcamlBasic, ExtrOcamlString) + OCaml driver; for "
+            "the clang-based reading: clang 14's AST dump, translators/cxx_pure.py (an AST node outside the fragment is a loud failure = "
+            "VIOLATION, never skipped) and the semantics coq/Cxx/Cxx.v; that the closure is what check_type_range executes (evaluate_safe runs "
+            "it and rethrows) and that error_msg only prints are read off the text, not proved. translators/ranges.py (regular expressions "
+            "over two C++ functions; an unrecognised shape is reported as `translator: stale`; the table part is cross-checked by "
+            "check_type_range_table, the clamp of clamp_unsigned_value has this one reading). The Mech model of the call sites (which store "
+            "path clamps / checks) is a hand-written reading of the named functions, tied to main by differential testing only. Cells "
+            "outside CbCore (multiple declarations, struct literals, nested / indirect members, pointers, references, whole-array stores, "
+            "function-pointer calls) have no Ref run: their expected transcript is the Spec conversion (Lang.Sem.coerce) of the one store, "
+            "printed by the harness. `unsigned char` is rejected by the parser, so the matrix has 9 types; `typedef unsigned T` is rejected "
+            "too (typedef variants: signed types only); values outside int64 cannot be written in Cb. Assignment used as an expression "
+            "crashes the interpreter (finding C04-assignment-expression-crash), so the store path behind it is not exercised.",
 }
 
 # Mech path -> finding that explains a cell on which Mech differs from Spec
@@ -74,10 +94,14 @@ PATH_FINDING = {
     "decl-typedef-ternary": "C04-typedef-ternary-init-unchecked", "static-assign": "C04-static-unsigned-flag-lost",
     "elem1-global": "C04-global-array-unsigned-flag-lost", "arrlit-assign1": "C04-array-literal-assign-unchecked",
     "arrlit-assignN": "C04-array-literal-assign-unchecked", "arr-copy": "C04-array-copy-unchecked",
-    "member": "C04-struct-member-unchecked", "member-nested": "C04-struct-member-unchecked", "member-generic": "C04-generic-struct-member",
+    # direct member stores (`member`, `member-generic`) are range checked since fix a3f0b3d: no finding explains a deviation there
+    "member-literal": "C04-struct-literal-unchecked", "member-literal-arr": "C04-struct-literal-unchecked",
+    "member-arrlit-assign": "C04-array-literal-assign-unchecked",
+    "member-nested": "C04-nested-member-store-unchecked", "member-pointer": "C04-member-through-pointer-unchecked",
+    "member-reference": "C04-member-through-reference-unchecked", "member-struct-array": "C04-struct-array-member-unchecked",
     "deref": "C04-pointer-store-unchecked", "reference": "C04-reference-store-unchecked",
 }
-ONE_D = ("elem1", "elem1-compound", "lit1", "global-arr", "incdec-elem1")
+ONE_D = ("elem1", "elem1-compound", "lit1", "global-arr", "incdec-elem1", "member-literal-arr")
 
 
 def finding_for(query, mech, spec):
@@ -90,30 +114,67 @@ def finding_for(query, mech, spec):
     return PATH_FINDING.get(mpath)
 
 
-def name_failed(cq):
-    """the property theorem whose obligation broke: the failing lemma of a dependency (first error in the log) mapped
-    to the theorem of Properties_C04.v that is proved by it"""
+CXX_FILES = ("C04/Gen_CheckTypeRange.v", "C04/CheckTypeRange.v", "C04/Properties_C04_cxx.v")
+CXX_THEOREMS_FILE = "C04/Properties_C04_cxx.v"
+
+
+def _property_files():
+    import glob
+    return [os.path.join(common.COQ, PROP, "Properties_%s.v" % PROP)] + sorted(glob.glob(os.path.join(common.COQ, PROP, "Properties_%s_*.v" % PROP)))
+
+
+def _theorems(path):
     import re
-    if cq.get("failed_theorem") and not str(cq["failed_theorem"]).startswith("dependency"):
-        return cq["failed_theorem"]
-    m = re.search(r'File "\./(C04/[^"]+\.v)", line (\d+)', cq.get("log", ""))
-    if not m:
-        return cq.get("failed_theorem") or "dependency"
-    f, ln = m.group(1), int(m.group(2))
-    lemma = None
     try:
-        for l in open(os.path.join(common.COQ, f)).read().split("\n")[:ln]:
-            mm = re.match(r"\s*(?:Lemma|Theorem|Corollary|Definition)\s+([A-Za-z0-9_']+)", l)
-            if mm:
-                lemma = mm.group(1)
-        props = common.strip_coq_comments(open(os.path.join(common.COQ, PROP, "Properties_%s.v" % PROP)).read())
-        for blk in re.split(r"(?=^\s*Theorem\s)", props, flags=re.M):
-            mt = re.match(r"\s*Theorem\s+([A-Za-z0-9_']+)", blk)
-            if mt and lemma and re.search(r"\b%s\b" % re.escape(lemma), blk):
-                return "%s (lemma %s in %s)" % (mt.group(1), lemma, f)
+        return re.findall(r"^\s*Theorem\s+([A-Za-z0-9_']+)", common.strip_coq_comments(open(path).read()), re.M)
     except OSError:
-        pass
-    return "lemma %s in %s" % (lemma, f)
+        return []
+
+
+def broken_lemmas(cq):
+    """every `File "./C04/X.v", line N` error of the log -> [(file, line, lemma or theorem that contains the line, property theorem(s)
+    proved by it)], in the order of the log, one entry per file"""
+    import re
+    res, seen = [], set()
+    for m in re.finditer(r'File "\./(C04/[^"]+\.v)", line (\d+)', cq.get("log", "")):
+        f, ln = m.group(1), int(m.group(2))
+        if f in seen:
+            continue
+        seen.add(f)
+        lemma = None
+        try:
+            for l in open(os.path.join(common.COQ, f)).read().split("\n")[:ln]:
+                mm = re.match(r"\s*(?:Lemma|Theorem|Corollary|Definition|Example)\s+([A-Za-z0-9_']+)", l)
+                if mm:
+                    lemma = mm.group(1)
+        except OSError:
+            pass
+        thms = []
+        for pf in _property_files():
+            try:
+                props = common.strip_coq_comments(open(pf).read())
+            except OSError:
+                continue
+            for blk in re.split(r"(?=^\s*Theorem\s)", props, flags=re.M):
+                mt = re.match(r"\s*Theorem\s+([A-Za-z0-9_']+)", blk)
+                if mt and lemma and re.search(r"\b%s\b" % re.escape(lemma), blk):
+                    thms.append(mt.group(1))
+        res.append((f, ln, lemma, thms))
+    return res
+
+
+def name_failed(cq, only=None):
+    """the property theorem whose obligation broke: the failing lemma of a dependency (first error in the log) mapped
+    to the theorem of Properties_C04.v / Properties_C04_cxx.v that is proved by it.  only: restrict to these files"""
+    if only is None and cq.get("failed_theorem") and not str(cq["failed_theorem"]).startswith("dependency"):
+        return cq["failed_theorem"]
+    for f, ln, lemma, thms in broken_lemmas(cq):
+        if only is not None and f not in only:
+            continue
+        if thms:
+            return "%s (lemma %s in %s)" % (", ".join(thms), lemma, f)
+        return "lemma %s in %s" % (lemma, f)
+    return (cq.get("failed_theorem") or "dependency") if only is None else None
 
 
 # ------------------------------------------------------------------ running the models
@@ -245,10 +306,23 @@ def run(rep):
                                   "reject": info.get("reject"), "clamp": info.get("clamp"), "types_outside_model": info.get("other_types")}
     if tstatus == "stale":
         rep.notes.append("translator: stale - check_type_range / clamp_unsigned_value no longer have the recognised shape (%s); "
-                         "Gen_RangeTable.v is the last generated one, relying on the correspondence run" % info.get("problems"))
+                         "Gen_RangeTable.v is the last generated one, relying on the clang-based reading (Properties_C04_cxx.v) and on "
+                         "the correspondence run" % info.get("problems"))
+    # (0b) the second, independent reading of the same function: clang's AST of TypeManager::check_type_range translated into
+    # coq/C04/Gen_CheckTypeRange.v (terms of coq/Cxx/Cxx.v); the obligations of Properties_C04_cxx.v are re-checked below
+    t0c = time.time()
+    with common.Lock("c04-gen"):
+        cinfo, cstatus = cxx_pure.regenerate(common.REPO, "check_type_range")
+    rep.coverage["generated_check_type_range"] = {
+        "translator": "translators/cxx_pure.py (clang++ -ast-dump=json -> coq/Cxx/Cxx.v terms)", "status": cstatus,
+        "dest": cinfo.get("dest"), "source": cinfo.get("source"), "clang_ast_cache": cinfo.get("cache"), "clang_s": cinfo.get("clang_s"),
+        "functions": cinfo.get("functions"), "problem": cinfo.get("problem"), "wall_s": round(time.time() - t0c, 2)}
     # (1) proofs
     cq = common.coq_check_props(PROP)
     common.proof_coverage(rep, cq)
+    rep.coverage["trusted_base"] = rep.coverage.get("trusted_base", []) + [
+        "generated check_type_range: clang 14 AST dump (-ast-dump=json), translators/cxx_pure.py, coq/Cxx/Cxx.v (C++17 integer-expression "
+        "and statement semantics); generated range table / clamp: translators/ranges.py (regular expressions)"]
     proof_broken = not cq["ok"]
     common.ensure_model(PROP)
     lap("translator+coq+model")
@@ -365,7 +439,11 @@ def run(rep):
     for k in range(n_core):
         # finding C04-ternary-assign-bool-branch is avoided only where it bites: gen_core's blanket `+ 0` around every top-level ?: of an
         # assignment is switched off, gen_c04.narrow_top_ternary wraps only a ?: with a bool-inferred, not 0/1-valued branch
-        g = gen_core.Gen(rng_for(seed, "c04-core", k), gen_core.Opts(max_stmts=6, funcs=2, avoid_assign_top_ternary=False))
+        o = gen_core.Opts(max_stmts=6, funcs=2, avoid_assign_top_ternary=False)
+        # plain structs with narrow (tiny / short / int / unsigned int) members and member arrays: since fix a3f0b3d a member is an
+        # ordinary store target (assignment, compound assignment, ++/--, element store), no avoidance is needed any more
+        o.structs = (k % 3 == 0)
+        g = gen_core.Gen(rng_for(seed, "c04-core", k), o)
         sxp, kept, wrapped = gen_c04.narrow_top_ternary(g.program())
         ternary_assign["kept"] += kept; ternary_assign["wrapped"] += wrapped
         progs.append(sxp); origin.append("core")
@@ -435,14 +513,53 @@ def run(rep):
     for fid, n in sorted(fixed_cells.items()):
         rep.notes.append("%d matrix cell(s) of finding/path %s now behave as the property demands (model of today's code is out of date: fixed?)" % (n, fid))
 
-    # (5) a broken proof obligation: name it; the matrix above is the targeted search for a concrete input
+    # (5) a broken proof obligation / a translator that gave up: name it; the matrix above (every type x every boundary value on every
+    # store path, run on the real binary) is the targeted search for a concrete failing input - the most direct one first
+    concrete = sorted((v for v in violations if v[0] in ("matrix", "prog")),
+                      key=lambda v: (0 if isinstance(v[1].get("cell"), dict) and v[1]["cell"].get("path") == "decl:lit" else 1))
+    broken = broken_lemmas(cq) if proof_broken else []
+    cxx_lemma = None
     if proof_broken:
-        concrete = [v for v in violations if v[0] in ("matrix", "prog")]
-        failed = name_failed(cq)
+        # which development broke?  The log of coq_check_props is cut; ask make again for the clang-based one alone (it does not
+        # depend on the lemma files about the regex-extracted table, so both can be named)
+        rcx, outx = common.coq_make(["C04/CheckTypeRange.vo", "C04/Properties_C04_cxx.vo"])
+        cxx_cq = {"log": outx if rcx != 0 else ""}
+        cxx_lemma = name_failed(cxx_cq, only=CXX_FILES)
+        broken = [b for b in broken if b[0] not in CXX_FILES] + [b for b in broken_lemmas(cxx_cq) if b[0] in CXX_FILES]
+    cxx_undischarged = proof_broken and any(t not in cq.get("assumptions", {}) for t in _theorems(os.path.join(common.COQ, CXX_THEOREMS_FILE)))
+    rep.coverage["generated_check_type_range"]["obligations"] = _theorems(os.path.join(common.COQ, CXX_THEOREMS_FILE))
+    rep.coverage["generated_check_type_range"]["obligations_discharged"] = not cxx_undischarged
+    if cstatus == "failed" or cxx_lemma:
+        first = concrete[0][1] if concrete else None
+        payload = {"theorem": cxx_lemma, "theorems_behind_it": _theorems(os.path.join(common.COQ, CXX_THEOREMS_FILE)),
+                   "translator_status": cstatus, "translator_problem": cinfo.get("problem"),
+                   "generated_file": "coq/C04/Gen_CheckTypeRange.v", "regex_translator": rep.coverage["translator"],
+                   "log": cq["log"][-3000:], "concrete_inputs_found": len(concrete), "failing_input": first}
+        if first:
+            # the replay of this violation IS the failing program (./check C04 --replay runs it on main and on the reference)
+            for key in ("cell", "program", "sexpr", "raw_program", "expected_outcome", "expected_stdout", "impl_rc", "impl_stdout", "impl_stderr"):
+                if key in first:
+                    payload[key] = first[key]
+        if cstatus == "failed":
+            text = "cxx_pure.py cannot translate TypeManager::check_type_range (%s): Properties_C04_cxx.v no longer speaks about the code" % (
+                ((cinfo.get("problem") or {}).get("text", "?"))[:200])
+        else:
+            text = "obligation %s about the definition clang's AST of TypeManager::check_type_range is translated into no longer checks" % cxx_lemma
+        if first:
+            c = first.get("cell") or {}
+            text += "; failing input: store path %s, type %s, value %s - main gives rc=%s stdout=%r, the property demands %s %r" % (
+                c.get("path"), c.get("type"), c.get("value"), first.get("impl_rc"), (first.get("impl_stdout") or "")[:40],
+                first.get("expected_outcome"), (first.get("expected_stdout") or "")[:40])
+        rep.violation("cxx", payload, text, no_failing_input=not concrete)
+    other = [b for b in broken if b[0] not in CXX_FILES]
+    if proof_broken and (other or not cxx_lemma):
+        failed = name_failed(cq, only=[b[0] for b in other]) if other else name_failed(cq)
         rep.violation("proof", {"theorem": failed, "log": cq["log"][-3000:], "translator": rep.coverage["translator"],
+                                "also_undischarged": (_theorems(os.path.join(common.COQ, CXX_THEOREMS_FILE)) if cxx_undischarged else []),
                                 "concrete_inputs_found": len(concrete),
                                 "first_concrete_input": (concrete[0][1] if concrete else None)},
-                      "proof obligation %s no longer checks (generated range table / test / clamp changed?)" % failed,
+                      "proof obligation %s no longer checks (generated range table / test / clamp changed?)%s" % (
+                          failed, "; the obligations of Properties_C04_cxx.v are not discharged either" if cxx_undischarged and not cxx_lemma else ""),
                       no_failing_input=not concrete)
     seen = collections.Counter()
     wrote = collections.Counter()
@@ -454,13 +571,14 @@ def run(rep):
         rep.violation(name, payload, text, noinp)
         wrote[name] += 1
 
-    # (6) thorough tier: the independent checker over the .vo closure of the property file
+    # (6) thorough tier: the independent checker over the .vo closure of the two property files
     if not quick and not proof_broken:
-        rc, o, e = common.sh(["coqchk", "-silent", "-o", "-Q", ".", "Cb", "Cb.%s.Properties_%s" % (PROP, PROP)], cwd=common.COQ, timeout=1500)
+        rc, o, e = common.sh(["coqchk", "-silent", "-o", "-Q", ".", "Cb", "Cb.%s.Properties_%s" % (PROP, PROP), "Cb.%s.Properties_%s_cxx" % (PROP, PROP)],
+                             cwd=common.COQ, timeout=1500)
         ok = rc == 0 and "Axioms: <none>" in (o + e).replace("\n", " ").replace("  ", " ")
         rep.coverage["coqchk"] = {"rc": rc, "axioms_none": "* Axioms: <none>" in o + e, "tail": (o + e)[-400:]}
         if rc != 0:
-            rep.violation("coqchk", {"log": (o + e)[-3000:]}, "coqchk rejects the compiled closure of Properties_C04", True)
+            rep.violation("coqchk", {"log": (o + e)[-3000:]}, "coqchk rejects the compiled closure of Properties_C04 / Properties_C04_cxx", True)
 
     lap("shrink+replays+rest")
     rep.coverage.update({
@@ -490,6 +608,7 @@ def run(rep):
     rep.assumptions += [
         "programs on which Ref reports Undef (signed 64-bit overflow of an intermediate) are not well-formed and are discarded (counted)",
         "matrix cells on which the Mech model differs from Spec are the recorded findings: main must then agree with Mech (KNOWN-FINDING) or with Ref (note)",
+        "direct struct member stores are on the Mech = Spec side since fix a3f0b3d (matrix paths member:*, raw/member:*; gen_core structs and the struct cells of gen_c04.mixed_program)",
         "random programs stay on store paths where Mech = Spec (gen_c04.mixed_program, gen_core.Opts.avoid_*)",
         "random programs that the reference ends with a division-by-zero or bounds error are not compared here (C01 / C05 decide them)",
         "`unsigned char` is rejected by the parser: 9 of the 10 types of the property are enumerated",
